@@ -237,43 +237,60 @@ func sideName(d int) string {
 	return "Down"
 }
 
-// coqLabel renders a label for the concrete LTS (bytes) or the length abstraction.
-func coqLabel(l Label, concrete bool) string {
-	dat := func() string {
+// traceString renders a trace in the one-literal format of coq/g03/Check.v
+// (ptrace / patrace): labels separated by ';', opcode, direction digit, payload
+// (hex bytes, or the decimal length for the length abstraction).
+func traceString(ls []Label, concrete bool) string {
+	const hexd = "0123456789abcdef"
+	var sb strings.Builder
+	pay := func(l Label) {
 		if concrete {
-			return hexs(l.Data)
+			for _, c := range l.Data {
+				sb.WriteByte(hexd[c>>4])
+				sb.WriteByte(hexd[c&15])
+			}
+		} else {
+			fmt.Fprintf(&sb, "%d", l.N)
 		}
-		return fmt.Sprintf("%d", l.N)
 	}
-	p := "L"
-	if !concrete {
-		p = "A"
+	for _, l := range ls {
+		switch l.K {
+		case "tick":
+			fmt.Fprintf(&sb, "t%d", l.Dt)
+		case "reply":
+			sb.WriteString("y")
+		case "drain":
+			sb.WriteString("n")
+			pay(l)
+		case "close":
+			if l.D == 0 {
+				sb.WriteString("xu")
+			} else {
+				sb.WriteString("xd")
+			}
+		case "write":
+			fmt.Fprintf(&sb, "w%d", l.D)
+			pay(l)
+		case "shutdown":
+			fmt.Fprintf(&sb, "s%d", l.D)
+		case "read":
+			fmt.Fprintf(&sb, "r%d", l.D)
+			pay(l)
+		case "readeof":
+			fmt.Fprintf(&sb, "e%d", l.D)
+		case "deliver":
+			fmt.Fprintf(&sb, "d%d", l.D)
+			pay(l)
+		case "closewrite":
+			fmt.Fprintf(&sb, "c%d", l.D)
+		case "abort":
+			fmt.Fprintf(&sb, "a%d", l.D)
+		default:
+			sb.WriteString("?")
+		}
+		sb.WriteString(";")
 	}
-	switch l.K {
-	case "tick":
-		return fmt.Sprintf("%sTick (%d)%%Z", p, l.Dt)
-	case "write":
-		return fmt.Sprintf("%sWrite %s %s", p, dirName(l.D), dat())
-	case "shutdown":
-		return fmt.Sprintf("%sShutdown %s", p, dirName(l.D))
-	case "reply":
-		return p + "Reply"
-	case "drain":
-		return fmt.Sprintf("%sDrain %s", p, dat())
-	case "read":
-		return fmt.Sprintf("%sRead %s %s", p, dirName(l.D), dat())
-	case "readeof":
-		return fmt.Sprintf("%sReadEOF %s", p, dirName(l.D))
-	case "deliver":
-		return fmt.Sprintf("%sDeliver %s %s", p, dirName(l.D), dat())
-	case "closewrite":
-		return fmt.Sprintf("%sCloseWrite %s", p, dirName(l.D))
-	case "close":
-		return fmt.Sprintf("%sClose %s", p, sideName(l.D))
-	case "abort":
-		return fmt.Sprintf("%sAbort %s", p, dirName(l.D))
-	}
-	return "BAD_LABEL"
+	return sb.String()
 }
 
 var crlfcrlf = []byte("\r\n\r\n")
